@@ -441,6 +441,7 @@ func TestCheck(t *testing.T) {
 	rec.Assume("reference: ref/rlpref (Yellow Paper appendix B, written independently of pkg/rlp)")
 	rec.Assume("rejection of non-canonical encodings is not asserted (the property permits leniency); Decode of the empty input is not asserted")
 	kTree := evid.NewKind(rec, "tree", judgeTree)
+	cpool := evid.NewPool(rec, "concurrent", judgeTree, 64)
 	kBytes := evid.NewKind(rec, "bytes", judgeBytes)
 	kScalar := evid.NewKind(rec, "scalar", judgeScalar)
 	rec.Corpus(t)
@@ -518,6 +519,7 @@ func TestCheck(t *testing.T) {
 		if rlpref.Depth(it) >= 4 {
 			cl = append(cl, "tree:depth>=4")
 		}
+		cpool.Offer(c)
 		kTree.Check(rt, c, nested || long || boundary, cl...)
 	})
 
@@ -556,11 +558,13 @@ func TestCheck(t *testing.T) {
 		a := gen.Bytes(rt, "a", 20)
 		kScalar.Check(rt, ScalarCase{Int: i.String(), Addr: hex.EncodeToString(a)}, i.BitLen() > 64 || a[0] == 0, "scalar")
 	})
+	cpool.Run(t, 8, 3, 16)
 }
 
 func TestReplay(t *testing.T) {
 	rec := evid.Start("C06", rule)
 	evid.NewKind(rec, "tree", judgeTree)
+	evid.NewPool(rec, "concurrent", judgeTree, 0)
 	evid.NewKind(rec, "bytes", judgeBytes)
 	evid.NewKind(rec, "scalar", judgeScalar)
 	rec.Replay(t)
